@@ -1,10 +1,434 @@
-#[path = "../../../harness/src/common.rs"]
+//! C03 — scaled and hinted outlines match FreeType (static fonts).  PARTIAL.
+//!
+//! Three layers, all against the REAL linked FreeType (freetype-sys bundles and compiles 2.12.1,
+//! the build /repo/fauntlet links) and the REAL skrifa/font-types code:
+//!
+//! A. kernel correspondence
+//!    * `ft.*`  FFI calls of FT_MulFix / FT_DivFix / FT_MulDiv / FT_MulDiv_No_Round / FT_RoundFix /
+//!      FT_CeilFix / FT_FloorFix                           vs Model/FtCalc.lean
+//!    * `sk.*`  skrifa hint::math, RoundState::round, the round-state opcode handlers and
+//!      `dot14` (through `skrifa::outline::verif_hooks`), font-types `Fixed` operators
+//!                                                        vs Model/HintMath.lean, HintRound.lean
+//!    * oracles (model independent, real vs real): skrifa kernel == FreeType kernel on every operand
+//!      tuple where FreeType's `long` result fits skrifa's `i32`.
+//! B. FreeType's static `Round_*`/`SetSuperRound` reached through generated glyph programs run by the
+//!    linked FreeType interpreter (see `bytecode` below)  vs Model/FtRound.lean; the same fonts run
+//!    through skrifa's real hinter are compared to FreeType (oracle).
+//! C. the property itself, fauntlet style: static fonts of font-test-data × ppem × {unscaled,
+//!    unhinted, interpreter × {mono, normal, light, lcd, vertical lcd}}: path (after fauntlet's
+//!    RegularizingPen) and advance equal.
+#[path = "../../../harness/src/lib.rs"]
 #[allow(dead_code)]
-mod common;
-use freetype_sys::{FT_DivFix, FT_MulDiv, FT_MulFix};
+mod fvlib;
+use fvlib::common::*;
+
+use fauntlet::{Hinting, HintingTarget, InstanceOptions, RegularizingPen};
+use skrifa::outline::pen::PathElement;
+use skrifa::outline::verif_hooks::{hint_arith as ha, hint_round_ops as hr};
+use skrifa::raw::{FontRef, TableProvider};
+use skrifa::GlyphId;
+use std::os::raw::c_long;
+
+#[path = "../c03_bytecode.rs"]
+mod bytecode;
+
+extern "C" {
+    fn FT_MulFix(a: c_long, b: c_long) -> c_long;
+    fn FT_DivFix(a: c_long, b: c_long) -> c_long;
+    fn FT_MulDiv(a: c_long, b: c_long, c: c_long) -> c_long;
+    fn FT_MulDiv_No_Round(a: c_long, b: c_long, c: c_long) -> c_long;
+    fn FT_RoundFix(a: c_long) -> c_long;
+    fn FT_CeilFix(a: c_long) -> c_long;
+    fn FT_FloorFix(a: c_long) -> c_long;
+}
+
 fn main() {
-    let a = i32::MIN as std::os::raw::c_long;
-    unsafe {
-        println!("{} {} {}", FT_MulFix(a, a), FT_DivFix(1 << 30, 1), FT_MulDiv(a, a, 1));
+    fvlib::main_with("C03", run)
+}
+
+fn fits_i32(v: i64) -> bool {
+    v >= i32::MIN as i64 && v <= i32::MAX as i64
+}
+
+// ------------------------------------------------------------------------------------------------
+// A. kernels
+// ------------------------------------------------------------------------------------------------
+
+fn binary(s: &mut Session, a: i32, b: i32) {
+    let (la, lb) = (a as c_long, b as c_long);
+    // FreeType, real
+    let ft_mul = unsafe { FT_MulFix(la, lb) } as i64;
+    let ft_div = unsafe { FT_DivFix(la, lb) } as i64;
+    s.case("ft.mulfix", format!("ft.mulfix {a} {b}"), ft_mul.to_string());
+    s.case("ft.divfix", format!("ft.divfix {a} {b}"), ft_div.to_string());
+    // skrifa, real
+    let sk_mul = catch(|| ha::mul(a, b));
+    let sk_div = catch(|| ha::div(a, b));
+    s.case("sk.mul", format!("sk.mul {a} {b}"), trap_or(sk_mul.clone()));
+    s.case("sk.div", format!("sk.div {a} {b}"), trap_or(sk_div.clone()));
+    let sk_mul14 = catch(|| ha::mul14(a, b));
+    s.case("sk.mul14", format!("sk.mul14 {a} {b}"), trap_or(sk_mul14));
+    // real vs real
+    s.oracle("kernel:Fixed*Fixed==FT_MulFix", sk_mul == Ok(ft_mul as i32) && fits_i32(ft_mul),
+        || format!("mul {a} {b}"), || format!("skrifa {sk_mul:?} freetype {ft_mul}"));
+    if fits_i32(ft_div) {
+        s.count("div:fits");
+        s.oracle("kernel:Fixed/Fixed==FT_DivFix", sk_div == Ok(ft_div as i32),
+            || format!("div {a} {b}"), || format!("skrifa {sk_div:?} freetype {ft_div}"));
+    } else {
+        s.count("div:ft-exceeds-i32");
+        s.oracle("kernel:Fixed/Fixed==FT_DivFix(truncated)", sk_div == Ok(ft_div as i32),
+            || format!("div {a} {b}"), || format!("skrifa {sk_div:?} freetype {ft_div}"));
     }
+}
+
+fn ternary(s: &mut Session, a: i32, b: i32, c: i32) {
+    let (la, lb, lc) = (a as c_long, b as c_long, c as c_long);
+    let ft = unsafe { FT_MulDiv(la, lb, lc) } as i64;
+    let ftnr = unsafe { FT_MulDiv_No_Round(la, lb, lc) } as i64;
+    s.case("ft.muldiv", format!("ft.muldiv {a} {b} {c}"), ft.to_string());
+    s.case("ft.muldivnr", format!("ft.muldivnr {a} {b} {c}"), ftnr.to_string());
+    let sk = catch(|| ha::mul_div(a, b, c));
+    let sknr = catch(|| ha::mul_div_no_round(a, b, c));
+    s.case("sk.muldiv", format!("sk.muldiv {a} {b} {c}"), trap_or(sk.clone()));
+    s.case("sk.muldivnr", format!("sk.muldivnr {a} {b} {c}"), trap_or(sknr.clone()));
+    s.count(if fits_i32(ft) { "muldiv:fits" } else { "muldiv:ft-exceeds-i32" });
+    s.oracle("kernel:mul_div==FT_MulDiv(truncated)", sk == Ok(ft as i32),
+        || format!("mul_div {a} {b} {c}"), || format!("skrifa {sk:?} freetype {ft}"));
+    match &sknr {
+        Ok(v) => {
+            s.count("muldivnr:returns");
+            s.oracle("kernel:mul_div_no_round==FT_MulDiv_No_Round(truncated)", *v == ftnr as i32,
+                || format!("mul_div_no_round {a} {b} {c}"), || format!("skrifa {v} freetype {ftnr}"));
+        }
+        Err(_) => s.count("muldivnr:traps"),
+    }
+}
+
+fn unary(s: &mut Session, a: i32) {
+    let la = a as c_long;
+    s.case("ft.roundfix", format!("ft.roundfix {a}"), unsafe { FT_RoundFix(la) }.to_string());
+    s.case("ft.ceilfix", format!("ft.ceilfix {a}"), unsafe { FT_CeilFix(la) }.to_string());
+    s.case("ft.floorfix", format!("ft.floorfix {a}"), unsafe { FT_FloorFix(la) }.to_string());
+    s.case("sk.floor", format!("sk.floor {a}"), trap_or(catch(|| ha::floor(a))));
+    s.case("sk.round", format!("sk.round {a}"), trap_or(catch(|| ha::round(a))));
+    s.case("sk.ceil", format!("sk.ceil {a}"), trap_or(catch(|| ha::ceil(a))));
+    s.case("sk.roundpad", format!("sk.roundpad {a} 32"), trap_or(catch(|| ha::round_pad(a, 32))));
+}
+
+fn wide(s: &mut Session, a: i64, b: i64, c: i64) {
+    // FT_Long operands beyond 32 bits: FT_MulFix truncates its operands (x86-64 inline variant),
+    // the others compute in u64.  (No skrifa counterpart: its API is i32.)
+    let r = unsafe { FT_MulFix(a as c_long, b as c_long) } as i64;
+    s.case("ft.mulfix64", format!("ft.mulfix {a} {b}"), r.to_string());
+    let r = unsafe { FT_DivFix(a as c_long, b as c_long) } as i64;
+    s.case("ft.divfix64", format!("ft.divfix {a} {b}"), r.to_string());
+    let r = unsafe { FT_MulDiv(a as c_long, b as c_long, c as c_long) } as i64;
+    s.case("ft.muldiv64", format!("ft.muldiv {a} {b} {c}"), r.to_string());
+    let r = unsafe { FT_MulDiv_No_Round(a as c_long, b as c_long, c as c_long) } as i64;
+    s.case("ft.muldivnr64", format!("ft.muldivnr {a} {b} {c}"), r.to_string());
+    for v in [a, b] {
+        s.case("ft.roundfix64", format!("ft.roundfix {v}"), unsafe { FT_RoundFix(v as c_long) }.to_string());
+        s.case("ft.ceilfix64", format!("ft.ceilfix {v}"), unsafe { FT_CeilFix(v as c_long) }.to_string());
+        s.case("ft.floorfix64", format!("ft.floorfix {v}"), unsafe { FT_FloorFix(v as c_long) }.to_string());
+    }
+}
+
+fn dot(s: &mut Session, ax: i32, ay: i32, bx: i32, by: i32) {
+    let r = catch(|| hr::project_both(ax, ay, bx, by));
+    s.count(if r.is_ok() { "dot14:returns" } else { "dot14:traps" });
+    s.case("sk.dot14", format!("sk.dot14 {ax} {ay} {bx} {by}"), trap_or(r));
+}
+
+const STATE_OPS: [u8; 8] = [0x18, 0x19, 0x3D, 0x7D, 0x7C, 0x7A, 0x76, 0x77];
+
+fn round_state(s: &mut Session, mode: u8, thr: i32, ph: i32, per: i32, d: i32) {
+    let r = catch(|| ha::round_state_round(mode, thr, ph, per, d).unwrap());
+    s.count(&format!("sk.rs:mode{mode}:{}", if r.is_ok() { "returns" } else { "traps" }));
+    s.case("sk.rs", format!("sk.rs {mode} {thr} {ph} {per} {d}"), trap_or(r));
+}
+
+fn round_ops(s: &mut Session, op: u8, sel: i32, d: i32) -> Option<(i32, i32, i32, i32)> {
+    let r = catch(|| hr::round_ops(op, sel, d).unwrap());
+    s.count(&format!("sk.rops:{op:#x}:{}", if r.is_ok() { "returns" } else { "traps" }));
+    let resp = match &r {
+        Ok((p, ph, t, v)) => format!("{p} {ph} {t} {v}"),
+        Err(_) => "trap".into(),
+    };
+    s.case("sk.rops", format!("sk.rops {op} {sel} {d}"), resp);
+    r.ok()
+}
+
+fn mixed_i32(rng: &mut Rng) -> i32 {
+    match rng.below(6) {
+        0 => rng.range(-70, 70) as i32,
+        1 => rng.range(-5000, 5000) as i32,
+        2 => rng.range(-0x20000, 0x20000) as i32,
+        3 => rng.range(-(1 << 26), 1 << 26) as i32,
+        4 => {
+            let b = *rng.pick(&boundary_i32());
+            b.wrapping_add(rng.range(-3, 3) as i32)
+        }
+        _ => rng.next() as i32,
+    }
+}
+
+fn kernels(cfg: &Config, s: &mut Session) {
+    let mut rng = Rng::new(cfg.seed);
+    let grid = boundary_i32();
+    for &a in &grid {
+        unary(s, a);
+        for &b in &grid {
+            binary(s, a, b);
+        }
+    }
+    let small: Vec<i32> = vec![i32::MIN, i32::MIN + 1, -0x10000, -65, -64, -3, -1, 0, 1, 2, 3, 63, 64, 0x7FFF, 0x10000, i32::MAX - 1, i32::MAX];
+    for &a in &grid {
+        for &b in &small {
+            for &c in &small {
+                ternary(s, a, b, c);
+            }
+        }
+    }
+    let n = if cfg.thorough() { 400_000 } else { 30_000 };
+    for _ in 0..n {
+        let (a, b, c) = (mixed_i32(&mut rng), mixed_i32(&mut rng), mixed_i32(&mut rng));
+        binary(s, a, b);
+        ternary(s, a, b, c);
+        unary(s, a);
+    }
+    for _ in 0..n / 10 {
+        let w = |rng: &mut Rng| -> i64 {
+            match rng.below(4) {
+                0 => rng.next() as i64,
+                1 => (rng.next() as i64) >> rng.below(40),
+                2 => *rng.pick(&[i64::MIN, i64::MIN + 1, i64::MAX, i64::MAX - 1, 1 << 47, -(1 << 47), 1 << 32, -(1 << 32), (1 << 31), -(1 << 31) - 1]),
+                _ => mixed_i32(rng) as i64,
+            }
+        };
+        let (a, b, c) = (w(&mut rng), w(&mut rng), w(&mut rng));
+        wide(s, a, b, c);
+    }
+    // 2.14 dot products: unit-ish vectors and extremes
+    let v14: Vec<i32> = vec![i32::MIN, -0x4000, -11585, -1, 0, 1, 11585, 0x4000, i32::MAX];
+    for &ax in &small {
+        for &ay in &small {
+            for &bx in &v14 {
+                for &by in &v14 {
+                    dot(s, ax, ay, bx, by);
+                }
+            }
+        }
+    }
+    for _ in 0..n / 4 {
+        let b = |rng: &mut Rng| if rng.chance(3, 4) { rng.range(-0x4000, 0x4000) as i32 } else { mixed_i32(rng) };
+        let (ax, ay) = (mixed_i32(&mut rng), mixed_i32(&mut rng));
+        let (bx, by) = (b(&mut rng), b(&mut rng));
+        dot(s, ax, ay, bx, by);
+    }
+    // round state: (a) arbitrary states, the full domain of the theorems
+    let dists: Vec<i32> = {
+        let mut v: Vec<i32> = grid.clone();
+        for k in -130..=130 {
+            v.push(k);
+        }
+        v.sort();
+        v.dedup();
+        v
+    };
+    for mode in 0u8..6 {
+        for &d in &dists {
+            round_state(s, mode, 0, 0, 64, d);
+        }
+    }
+    for _ in 0..n / 2 {
+        let mode = rng.below(8) as u8;
+        let st = |rng: &mut Rng| match rng.below(4) {
+            0 => rng.range(-200, 200) as i32,
+            1 => *rng.pick(&[0, 1, 22, 32, 45, 64, 90, 128, -64, -1, i32::MIN, i32::MAX]),
+            _ => mixed_i32(rng),
+        };
+        let (thr, ph, per) = (st(&mut rng), st(&mut rng), st(&mut rng));
+        let d = if rng.chance(1, 2) { rng.range(-4000, 4000) as i32 } else { mixed_i32(&mut rng) };
+        round_state(s, mode, thr, ph, per, d);
+    }
+    // (b) states reachable by the opcode handlers: all 256 selectors × both grids × distances
+    let few: Vec<i32> = vec![-2147483647, -100000, -1000, -129, -97, -96, -65, -64, -63, -33, -32, -31, -23, -22, -12, -11, -1, 0, 1, 11, 12, 22, 23, 31, 32, 33, 45, 46, 63, 64, 65, 90, 96, 97, 129, 1000, 100000, 2147483000];
+    for &op in &STATE_OPS {
+        let sels: Vec<i32> = if op == 0x76 || op == 0x77 { (0..256).collect() } else { vec![0] };
+        for &sel in &sels {
+            for &d in &few {
+                round_ops(s, op, sel, d);
+            }
+        }
+    }
+    for _ in 0..n / 4 {
+        let op = *rng.pick(&STATE_OPS);
+        let sel = if rng.chance(1, 8) { mixed_i32(&mut rng) } else { rng.below(256) as i32 };
+        let d = if rng.chance(3, 4) { rng.range(-3000, 3000) as i32 } else { mixed_i32(&mut rng) };
+        round_ops(s, op, sel, d);
+    }
+}
+
+// ------------------------------------------------------------------------------------------------
+// C. whole-outline differential (the property statement)
+// ------------------------------------------------------------------------------------------------
+
+fn elements(e: &[PathElement]) -> String {
+    e.iter()
+        .map(|c| match c {
+            PathElement::MoveTo { x, y } => format!("M{x},{y}"),
+            PathElement::LineTo { x, y } => format!("L{x},{y}"),
+            PathElement::QuadTo { cx0, cy0, x, y } => format!("Q{cx0},{cy0},{x},{y}"),
+            PathElement::CurveTo { cx0, cy0, cx1, cy1, x, y } => format!("C{cx0},{cy0},{cx1},{cy1},{x},{y}"),
+            PathElement::Close => "Z".into(),
+        })
+        .collect::<Vec<_>>()
+        .join(" ")
+}
+
+/// first differing element with a little context (full paths are too long for a replay record)
+fn path_diff(a: &[PathElement], b: &[PathElement]) -> String {
+    let i = a.iter().zip(b.iter()).position(|(x, y)| x != y).unwrap_or(a.len().min(b.len()));
+    let lo = i.saturating_sub(1);
+    let w = |v: &[PathElement]| elements(&v[lo.min(v.len())..(i + 2).min(v.len())]);
+    format!("len {}/{} first difference at element {i}: freetype [{}] skrifa [{}]", a.len(), b.len(), w(a), w(b))
+}
+
+fn mode_name(h: Option<Hinting>) -> String {
+    match h {
+        None => "unhinted".into(),
+        Some(Hinting::Interpreter(t)) => format!("interp-{t:?}").to_lowercase(),
+        Some(Hinting::Auto(t)) => format!("auto-{t:?}").to_lowercase(),
+    }
+}
+
+/// fauntlet `compare_glyphs`, re-stated so that a mismatch yields (font, gid, ppem, mode):
+/// same instances (`Font::instantiate`), same pens (`RegularizingPen`), same skips
+/// (compare_glyphs.rs: non-scalable faces are skipped; the Handjet skip applies to the autohinter
+/// only; font/freetype.rs: tricky fonts ignore the hinting request on the FreeType side and
+/// font/skrifa.rs forces the interpreter for them — both are inside the instances).
+/// Differences to fauntlet: (1) the advance is compared for static fonts too (fauntlet only
+/// reports an advance mismatch when HVAR and gvar are both present); (2) no early `break`.
+fn differential(cfg: &Config, s: &mut Session, path: &std::path::Path, ppems: &[u32], modes: &[Option<Hinting>]) {
+    let name = path.file_name().unwrap().to_string_lossy().to_string();
+    let Some(mut font) = fauntlet::Font::new(path) else {
+        s.count("diff:font-unreadable");
+        return;
+    };
+    let _ = cfg;
+    for index in 0..font.count() {
+        if font.axis_count(index) != 0 {
+            s.count("diff:skip-variable");
+            continue;
+        }
+        for &ppem in ppems {
+            for &mode in modes {
+                if ppem == 0 && mode.is_some() {
+                    continue;
+                }
+                let options = InstanceOptions::new(index, ppem, &[], mode);
+                let Some((mut ft, mut sk)) = font.instantiate(&options) else {
+                    s.count("diff:instantiate-none");
+                    s.count(&format!("diff:instantiate-none:{name}:{}", if mode.is_some() { "hinted" } else { "unhinted" }));
+                    continue;
+                };
+                if !ft.is_scalable() {
+                    s.count("diff:skip-not-scalable");
+                    continue;
+                }
+                let is_scaled = ppem != 0;
+                let mut ft_outline: Vec<PathElement> = vec![];
+                let mut sk_outline: Vec<PathElement> = vec![];
+                for gid in 0..sk.glyph_count() {
+                    let gid = GlyphId::from(gid);
+                    ft_outline.clear();
+                    sk_outline.clear();
+                    let ft_adv = ft.outline(gid, &mut RegularizingPen::new(&mut ft_outline, is_scaled));
+                    let sk_adv = catch(|| sk.outline(gid, &mut RegularizingPen::new(&mut sk_outline, is_scaled)));
+                    let input = || format!("font={name}#{index} gid={} ppem={ppem} mode={}", gid.to_u32(), mode_name(mode));
+                    match (ft_adv, sk_adv) {
+                        (Some(fa), Ok(Ok(sa))) => {
+                            s.count("diff:compared");
+                            s.count(&format!("diff:mode:{}", mode_name(mode)));
+                            s.oracle("outline:path==freetype", ft_outline == sk_outline, input,
+                                || path_diff(&ft_outline, &sk_outline));
+                            if let Some(sa) = sa {
+                                s.count("diff:advance-compared");
+                                s.oracle("outline:advance==freetype", fa == sa, input,
+                                    || format!("freetype {fa} skrifa {sa}"));
+                            }
+                        }
+                        (None, Ok(Err(_))) => s.count("diff:both-fail"),
+                        (None, Ok(Ok(_))) => {
+                            s.count("diff:freetype-fails-only");
+                            // FreeType refusing a glyph skrifa draws is not a mismatch of outlines
+                            // fauntlet could report (it unwraps FreeType's result first).
+                        }
+                        (Some(_), Ok(Err(e))) => {
+                            s.oracle("outline:skrifa-draws-what-freetype-loads", false, input, || format!("skrifa error {e:?}"));
+                        }
+                        (_, Err(p)) => {
+                            s.oracle("outline:skrifa-no-panic", false, input, || format!("panic {p}"));
+                        }
+                    }
+                }
+            }
+        }
+    }
+}
+
+fn corpus() -> Vec<std::path::PathBuf> {
+    let mut v = vec![];
+    for dir in ["/repo/font-test-data/test_data/ttf", "/repo/font-test-data/test_data/ttc"] {
+        if let Ok(rd) = std::fs::read_dir(dir) {
+            for e in rd.flatten() {
+                let p = e.path();
+                match p.extension().and_then(|x| x.to_str()) {
+                    Some("ttf") | Some("otf") | Some("ttc") => v.push(p),
+                    _ => {}
+                }
+            }
+        }
+    }
+    v.sort();
+    v
+}
+
+fn outlines(cfg: &Config, s: &mut Session) {
+    use HintingTarget::*;
+    let modes: Vec<Option<Hinting>> = vec![
+        None,
+        Some(Hinting::Interpreter(Mono)),
+        Some(Hinting::Interpreter(Normal)),
+        Some(Hinting::Interpreter(Light)),
+        Some(Hinting::Interpreter(Lcd)),
+        Some(Hinting::Interpreter(VerticalLcd)),
+    ];
+    let ppems: Vec<u32> = if cfg.thorough() {
+        let mut v: Vec<u32> = (0..=64).collect();
+        v.extend([72, 96, 100, 113, 127, 128, 144, 200, 256, 500, 1000, 2048]);
+        v
+    } else {
+        // fauntlet's own sizes plus the small sizes where hinting and rounding bite
+        vec![0, 7, 8, 9, 11, 12, 13, 16, 17, 24, 50, 72, 113, 144]
+    };
+    for path in corpus() {
+        // a static font is one without fvar (checked per face index inside)
+        if let Ok(data) = std::fs::read(&path) {
+            if let Ok(f) = FontRef::new(&data) {
+                if f.fvar().is_ok() {
+                    s.count("diff:skip-variable");
+                    continue;
+                }
+            }
+        }
+        differential(cfg, s, &path, &ppems, &modes);
+    }
+}
+
+fn run(cfg: &Config, s: &mut Session) {
+    kernels(cfg, s);
+    bytecode::run(cfg, s);
+    outlines(cfg, s);
 }
